@@ -25,14 +25,19 @@ Qed.
 Section Sound.
   Variable scopes : list scope_var.
   Variable lit_str : str -> str.
+  Variable sval : str -> upt.
   Variable root : str -> upt.
   Variable hv : str -> option val.
   Variable ev0 ev1 : env.
   Hypothesis Hcov : covers (UNode root) (Some (e_data ev0)) (Some (e_data ev1)).
+  (* every scope variable: its update-path variable covers the difference of its values (a
+     variable without one does not change) *)
+  Hypothesis Hsc : forall i, covers (scope_tree scopes sval i)
+                                    (Some (nth i (e_scopes ev0) VUndef)) (Some (nth i (e_scopes ev1) VUndef)).
 
-  Notation upath := (upath root hv).
-  Notation upres := (upres root hv).
-  Notation any_marked := (any_marked root hv).
+  Notation upath := (upath scopes sval root hv).
+  Notation upres := (upres scopes sval root hv).
+  Notation any_marked := (any_marked scopes sval root hv).
 
   Lemma upres_eq : forall p subs,
     upres (PRes p subs) = if any_marked subs then UAll else match p with Some q => upath q | None => UNone end.
@@ -119,6 +124,17 @@ Section Sound.
     intros x st. cbn [gen_core fst snd]. split; [apply incl_refl|]. intros _.
     unfold rel. rewrite upres_eq. cbn.
     inversion Hcov as [| |f a b Hf]; subst. apply (Hf x).
+  Qed.
+
+  Lemma good_scope : forall i, good (EScope i).
+  Proof.
+    intros i st. cbn [gen_core fst snd]. split; [apply incl_refl|]. intros _.
+    unfold rel. rewrite upres_eq. cbn [g_pas g_calc Upt.any_marked existsb].
+    change (eval ev0 (EScope i)) with (Some (nth i (e_scopes ev0) VUndef)).
+    change (eval ev1 (EScope i)) with (Some (nth i (e_scopes ev1) VUndef)).
+    pose proof (Hsc i) as H. unfold scope_tree in H.
+    destruct (sv_lv (scope_nth scopes i)); destruct (sv_upt (scope_nth scopes i)) as [x|] eqn:Eu;
+      cbn [Upt.upath Upt.uhead fold_left]; unfold scope_tree; rewrite ?Eu; exact H.
   Qed.
 
   Lemma good_member : forall o k, good o -> good (EMember o k).
@@ -272,6 +288,7 @@ Section Sound.
   Proof.
     induction 1.
     - apply good_field.
+    - apply good_scope.
     - intros st; cbn [gen_core fst snd]; split; [apply incl_refl|]; intros _; now apply rel_literal.
     - intros st; cbn [gen_core fst snd]; split; [apply incl_refl|]; intros _; now apply rel_literal.
     - intros st; cbn [gen_core fst snd]; split; [apply incl_refl|]; intros _; now apply rel_literal.
@@ -291,14 +308,14 @@ Section Sound.
     frag e ->
     let '(st, v, r) := prepare scopes lit_str e (mk_gst n) in
     hv_ok (hoists st) hv ev1 ->
-    guard_den root hv r = false ->
+    guard_den scopes sval root hv r = false ->
     eval ev0 e = eval ev1 e.
   Proof.
     intros e n Hf. unfold prepare, gen.
     destruct (sub_call e L_Cond (mk_gst n) (gen_sound e Hf)) as [_ Hr].
     destruct (wrapg L_Cond (pg_level e) (core e (mk_gst n))) as [st o]. cbn [fst snd] in *.
     intros Hh Hg. specialize (Hr Hh). unfold rel in Hr. unfold guard_den in Hg.
-    destruct (Upt.upres root hv (PRes (g_pas o) (g_calc o))); try discriminate.
+    destruct (Upt.upres scopes sval root hv (PRes (g_pas o) (g_calc o))); try discriminate.
     now apply covers_none_eq.
   Qed.
 End Sound.
